@@ -85,6 +85,7 @@ type VC struct {
 	discover bool
 	written  map[*ssa.BasicBlock]map[string]map[string]bool
 	writtenFrozen map[*ssa.BasicBlock]map[string]map[string]bool
+	loopFrame     map[*loopInfo]map[string]bool // maps whose writes inside the loop must hit objects allocated by this call
 	curBlock *ssa.BasicBlock
 	curGuard string
 	hasAlloc bool
@@ -294,6 +295,19 @@ func (vc *VC) markWrittenAt(name, idx string) {
 		m[name] = map[string]bool{}
 	}
 	m[name][idx] = true
+	// loops whose frame rests on "the body only writes objects of this call" (see loopHeader)
+	if !vc.discover && idx != "" {
+		for li, ks := range vc.loopFrame {
+			if !ks[name] || !li.blocks[vc.curBlock] || loopInvariantTerm(idx) {
+				continue
+			}
+			if ab, ok := vc.allocBlock[idx]; ok && li.blocks[ab] {
+				continue
+			}
+			vc.oblige(fmt.Sprintf("loop%d.frame", li.ordinal), name, nil, vc.curGuard, not(sx("is_old", idx)),
+				"the loop writes "+name+" only at objects allocated by this call (the caller's objects keep their values)", token.NoPos)
+		}
+	}
 }
 
 // setAt updates array variable name at index idx.
@@ -637,6 +651,7 @@ func (vc *VC) allocRef(prefix string) string {
 			if li.blocks[vc.curBlock] {
 				vc.declarePre(li.ordinal)
 				cs = append(cs, not(sx(fmt.Sprintf("pre_L%d", li.ordinal), r)))
+				cs = append(cs, not(sx(vc.declareCur(li.ordinal), r)))
 			}
 		}
 	}
@@ -652,6 +667,15 @@ func (vc *VC) declarePre(k int) {
 	}
 	vc.declareFun(n, []string{"Int"}, "Bool")
 	vc.preamble = append(vc.preamble, fmt.Sprintf("(assert (forall ((x Int)) (! (=> (is_old x) (%s x)) :pattern ((%s x)))))", n, n))
+}
+
+// declareCur declares cur_Lk ("existed when the current iteration of loop k started").
+func (vc *VC) declareCur(k int) string {
+	n := fmt.Sprintf("cur_L%d", k)
+	if !vc.declared[n] {
+		vc.declareFun(n, []string{"Int"}, "Bool")
+	}
+	return n
 }
 
 // zeroInit stores the zero value into a freshly allocated object of type t.
